@@ -203,3 +203,47 @@ where
         forall|k: int| 0 <= k < indexes@.len() ==> (#[trigger] r@[k]).0 == indexes@[k]
             && selected_at(final(array)@, indexes@[k] as int, r@[k].1),
 { unimplemented!() }
+
+// ---- the thin public wrappers around the inner function ------------------------------------------------------------
+// an owned / borrowed 1-D array of quantiles (`&ArrayBase<S2, Ix1>`), `.view()` (R17: verif_view) and `aview1(&[q])`
+pub struct QArr { pub a: Vec<N64> }
+impl QArr {
+    pub open spec fn view(&self) -> Seq<N64> { self.a@ }
+    #[verifier::external_body]
+    pub fn verif_view<'a>(&'a self) -> (r: QView<'a>) ensures r@ == self@
+    { unimplemented!() }
+}
+#[verifier::external_body]
+pub fn aview1(s: &[N64]) -> (r: QArr) ensures r@ == s@
+{ unimplemented!() }
+// the result of `index_axis_move(axis, i)`: the axis removed, one element per lane (in lane order)
+#[verifier::external_body]
+#[verifier::reject_recursive_types(A)]
+pub struct ArrS<A> { _a: core::marker::PhantomData<A> }
+impl<A> ArrS<A> {
+    pub uninterp spec fn elems(&self) -> Seq<A>;
+    // `into_scalar()` of a zero-dimensional array
+    #[verifier::external_body]
+    pub fn into_scalar(self) -> (r: A)
+        requires self.elems().len() == 1
+        ensures r == self.elems()[0]
+    { unimplemented!() }
+}
+impl<A> ArrL<A> {
+    // `view_mut()`: a mutable view of the whole array
+    #[verifier::external_body]
+    pub fn view_mut(&mut self) -> (r: &mut ArrL<A>)
+        ensures *r == *old(self), *final(self) == *final(r)
+    { unimplemented!() }
+    #[verifier::external_body]
+    pub fn index_axis_move(self, axis: Axis, i: usize) -> (r: ArrS<A>)
+        requires axis.0 < self.dims().len(), i < self.dims()[axis.0 as int]   // panics otherwise
+        ensures r.elems().len() == self.lanes(axis.0 as int).len(), forall|j: int| 0 <= j < r.elems().len() ==> #[trigger] r.elems()[j] == self.lanes(axis.0 as int)[j][i as int]
+    { unimplemented!() }
+}
+// a one-dimensional array has exactly one lane along its only axis
+#[verifier::external_body]
+pub proof fn axiom_dims_1d(d: Seq<usize>)
+    requires d.len() == 1
+    ensures nlanes_of(d, 0) == 1
+{ }
